@@ -96,6 +96,11 @@ func (rww *responseWriterWrapper) WriteHeader(status int) {
 	if rww.wroteHeader {
 		return
 	}
+	if status >= 100 && status <= 199 && status != http.StatusSwitchingProtocols {
+		// informational: the final header is still to come
+		rww.ResponseWriterWrapper.WriteHeader(status)
+		return
+	}
 	rww.wroteHeader = true
 	// capture the original headers
 	h := rww.Header()
